@@ -105,6 +105,9 @@ class Check(RuntimeCheck):
         # compile-time half: ordered => exact counts only, then() only after an exact count
         from .. import tscheck
         tscheck.report(self, rep, tier, 'C14')
+        # "... or when a configured return cannot be produced in the current feature set": the feature set without any Mutex API
+        from .. import nomutex
+        nomutex.report(rep, 'C14')
 
     def nontrivial(self, name, text, real_lines):
         return 'tuple n=' in text
